@@ -37,6 +37,12 @@ c02_single_wrong_summary.diff C02
 c02_copy_loses_mappings.diff C02
 c02_consolidate_mappings_first_only.diff C02
 c13_skip_forbidden_when_member_of.diff C13
+c12_put_cleanup_or.diff C12
+c12_post_skips_write.diff C12
+c16_deploy_noauth_flipped.diff C16
+c11_update_consumers_type_or.diff C11
+c11_set_inventory_drops_add.diff C11
+c02_summaries_inverted_early_return.diff C02
 c05_reshaper_guard_one_sided.diff C05
 c05_reshaper_drops_empty_inventory.diff C05
 EOM
